@@ -417,17 +417,28 @@ def r132(ctx, rep, f, ev, cg, reach, O):
             gcalls = []
             rep.check(ok, "R13.2", "R13.2|lanes|%s" % lay, "%s: error iff lane count != %d − number of fatal lanes" % (lay, cnt), WA,
                       "%s barrel: lane-count test is %s, expected `len != %d - fatal.len()`" % (lay, [ckey(o["cond"])[:200] for o in cmp_], cnt))
-        tb = ev.tb(cf)
-        vg = [(x, n) for x, n in tb.calls() if (n.get("fn") or "").endswith("validate_inner_lane_groupings")]
-        ok = False
-        if len(vg) == 1:
-            # the call sits in the else-if branch guarded by from_layer() == Inner
-            for x, n in tb.walk():
-                if n["k"] == "If" and any(y == vg[0][0] for y, _ in tb.walk(n["then"])):
-                    c = ckey(ev.as_cond(ev.eval(tb, n["cond"], _bind_params(ev, tb, [Sym("self"), Sym("FATAL")]), 0)))
-                    if "Layer::Inner()" in c and c.startswith("Eq("):
-                        ok = True
-        rep.check(ok, "R13.2", "R13.2|groups|inner-only", "lane grouping is validated for the inner barrel only, after the count matched", WA)
+        # decided per (barrel, lane count as expected / one too many): the grouping is validated exactly for an inner-barrel
+        # frame whose count matched
+        calls_ = {}
+        for lay, cnt in O["lanes_per_frame"].items():
+            for delta in (0, 1):
+                slf = Agg(ARF + "AlpideReadoutFrame", "AlpideReadoutFrame", {
+                    "from_layer": Agg("core::option::Option", "Some", {"0": Agg(LAYER, lay, {})}),
+                    "lane_data_frames": Sym("LDF"), "frame_end_mem_pos": Sym("END"), "frame_start_mem_pos": Sym("START")})
+                ev.call_hooks = [(lambda fn_, r_: (r_ or fn_).endswith("::len"), lambda n, a, v=cnt + delta: Bits.const(v, 64) if vkey(a[0]) == "sym(LDF)" else None)]
+                ev.watch = lambda c: c.endswith("::validate_inner_lane_groupings")
+                try:
+                    recs_ = ev.collect_ifs(cf, [slf, Agg("core::option::Option", "None", {})])
+                    calls_[(lay, delta)] = len([o for o in recs_ if "call" in o and all(g in ("true", "not false") for g in o["guard"])]) \
+                        if not [o for o in recs_ if "call" in o and any(g not in ("true", "not false", "false", "not true") for g in o["guard"])] else "undecided"
+                except Unsupported as e:
+                    calls_[(lay, delta)] = "unevaluable: %s" % e
+                finally:
+                    ev.call_hooks = []
+                    ev.watch = None
+        want_ = {(lay, d_): (1 if lay == "Inner" and d_ == 0 else 0) for lay in O["lanes_per_frame"] for d_ in (0, 1)}
+        rep.check(calls_ == want_, "R13.2", "R13.2|groups|inner-only", "lane grouping is validated for the inner barrel only, after the count matched", WA,
+                  "calls of validate_inner_lane_groupings per (barrel, lanes beyond the expected count): %s, expected %s" % (calls_, want_))
     # inner groups
     vg = ARF + "validate_inner_lane_groupings"
     tb = ev.tb(vg)
